@@ -596,6 +596,43 @@ func (sc *scen) clientCase(host string, cl, evilID, otherClient *ident, flow str
 		return resp
 	})
 
+	// 3a'. the attacker's server proves ITS OWN key honestly and names the victim's key in a LATER header
+	// (after the step whose signature the client verified): the client must keep reporting the key that signed
+	victimKey := b64(H.id.pubBytes)
+	for _, how := range []string{"appended", "prepended", "replacing", "appended-to-every-header"} {
+		runPlan("evil-server", "takeover-then-victim-key-in-later-header/"+how, func(s int, req *http.Request) *http.Response {
+			edit := paramOp(nil)
+			if flow == flowServer && s == 0 {
+				edit = corruptBearer
+			}
+			resp, _ := forward(E, req, "", edit)
+			if s <= sigStep && how != "appended-to-every-header" {
+				return resp
+			}
+			for _, h := range []string{"Authentication-Info", "WWW-Authenticate"} {
+				v := resp.Header.Get(h)
+				if v == "" {
+					continue
+				}
+				ps := orderedParams(v)
+				switch how {
+				case "prepended":
+					ps = append([]kv{{"public-key", victimKey}}, ps...)
+				case "replacing":
+					ps = append(setParam(ps, "public-key", victimKey), kv{"public-key", victimKey})
+				default:
+					if s <= sigStep { // every-header variant: the victim's key FOLLOWS the attacker's own
+						ps = append(ps, kv{"public-key", victimKey})
+					} else {
+						ps = append(ps, kv{"public-key", victimKey})
+					}
+				}
+				resp.Header.Set(h, buildHeader(ps))
+			}
+			return resp
+		})
+	}
+
 	// 3b. the attacker's server proves its own key over deliberately wrong pre-images
 	{
 		type variant struct {
